@@ -444,6 +444,9 @@ pub fn any_input(rng: &mut Rng, known_bias: bool) -> String {
             "", "pkg:", "pkg:/", "pkg:a", "pkg:a/", "pkg:a/b", "pkg:a/b@", "pkg:a/b?", "pkg:a/b#",
             "pkg:a//b", "pkg://a/b", "pkg:a/b/c/d@1?x=y#z", "pkg:a/@", "pkg:a/b@@", "pkg:a/%00",
             "not a purl", "pkg:a/b?checksum=", "pkg:a/b?checksum=:", "pkg:a/b?x=%26",
+            // Multi-byte characters around the four bytes of the scheme.
+            "日本語", "日本語:a/b", "ab€", "ab€:a/b", "pkg\u{e9}:npm/x", "pk€:a/b", "€", "é:", "ééé", "p", "pk", "pkg",
+            "pkgé", "\u{feff}pkg:a/b", "pkg:é/b", "PKG:a/b", "Pkg:a/b",
         ]))
         .to_owned(),
     }
